@@ -271,6 +271,16 @@ func execA(c caseA) (st stats, err error) {
 		case "delete":
 			r, err = cl.Call("DELETE", path, nil, hdr, nil)
 			destructive = true
+		case "delany":
+			// a delete that names a version id the key does not have (or, without a versions store, any id at all):
+			// whatever the backend makes of the id, the protected data stays
+			junk := []string{"null", "x", "01JUNKVERSION0000000000000", "0"}[o.Pos%4]
+			if o.Pos >= 3 {
+				r, err = cl.Call("POST", "/"+b, s3c.Q("delete", ""), hdr, s3c.DeleteXML([]s3c.KV{{K: key, V: junk}}, false))
+			} else {
+				r, err = cl.Call("DELETE", path, s3c.Q("versionId", junk), hdr, nil)
+			}
+			destructive = true
 		case "delver":
 			if !c.Versioned || vid == "" {
 				continue
@@ -427,7 +437,7 @@ func describe(s *state) string {
 func opGen() *rapid.Generator[op] {
 	return rapid.Custom(func(t *rapid.T) op {
 		var o op
-		o.Kind = rapid.SampledFrom([]string{"put", "copy", "mpu", "delete", "delver", "batch", "delbucket", "retention", "retention", "holdoff", "holdon", "lockcfg", "suspend", "policy"}).Draw(t, "kind")
+		o.Kind = rapid.SampledFrom([]string{"put", "copy", "mpu", "delete", "delver", "delany", "batch", "delbucket", "retention", "retention", "holdoff", "holdon", "lockcfg", "suspend", "policy"}).Draw(t, "kind")
 		o.Caller = rapid.SampledFrom([]string{"root", "dave", "alice", "alice", "bob", "bob"}).Draw(t, "caller")
 		o.Bypass = rapid.Bool().Draw(t, "bypass")
 		o.Mode = rapid.SampledFrom([]string{"GOVERNANCE", "COMPLIANCE"}).Draw(t, "mode")
